@@ -211,6 +211,19 @@ func Shrink(t *testing.T, P Property, p *Plan, v *Violation) *Plan {
 					}
 				}
 			}
+			if best.Variants[vi].Warmup > 0 {
+				c := best.Clone()
+				c.Variants[vi].Warmup, c.Variants[vi].WarmupQuery = 0, ""
+				if try(c) {
+					progress = true
+				} else if best.Variants[vi].Warmup > 1 || best.Variants[vi].WarmupQuery != "" {
+					c := best.Clone()
+					c.Variants[vi].Warmup, c.Variants[vi].WarmupQuery = 1, ""
+					if try(c) {
+						progress = true
+					}
+				}
+			}
 			if len(best.Variants[vi].DelaysMs) > 0 {
 				c := best.Clone()
 				c.Variants[vi].DelaysMs = nil
